@@ -15,6 +15,7 @@ mod c03;
 mod c04;
 mod c06;
 mod c11;
+mod c12;
 
 use common::Ctx;
 
@@ -53,6 +54,7 @@ fn main() {
         "c04" => c04::run(&mut ctx),
         "c06" => c06::run(&mut ctx),
         "c11" => c11::run(&mut ctx),
+        "c12" => c12::run(&mut ctx),
         _ => {
             eprintln!("unknown suite {}", suite);
             std::process::exit(2);
